@@ -185,13 +185,22 @@ impl FinalityTracker {
         };
 
         match status {
-            FinalizationStatus::Notarized(hash)
-            | FinalizationStatus::Finalized(hash)
-            | FinalizationStatus::ImplicitlyFinalized(hash) => {
+            FinalizationStatus::Notarized(hash) => {
                 assert_eq!(&hash, block_hash, "consensus safety violation");
                 FinalizationEvent::default()
             }
-            FinalizationStatus::ImplicitlySkipped => FinalizationEvent::default(),
+            FinalizationStatus::Finalized(ref hash)
+            | FinalizationStatus::ImplicitlyFinalized(ref hash) => {
+                assert_eq!(hash, block_hash, "consensus safety violation");
+                // slot is already decided, keep the stronger status
+                self.status.insert(*slot, status);
+                FinalizationEvent::default()
+            }
+            FinalizationStatus::ImplicitlySkipped => {
+                // slot is already decided, keep the stronger status
+                self.status.insert(*slot, status);
+                FinalizationEvent::default()
+            }
             FinalizationStatus::FinalPendingNotar => {
                 let mut event = FinalizationEvent::default();
                 self.status
@@ -221,9 +230,12 @@ impl FinalityTracker {
         };
 
         match status {
-            FinalizationStatus::FinalPendingNotar
-            | FinalizationStatus::Finalized(_)
-            | FinalizationStatus::ImplicitlyFinalized(_) => FinalizationEvent::default(),
+            FinalizationStatus::FinalPendingNotar => FinalizationEvent::default(),
+            FinalizationStatus::Finalized(_) | FinalizationStatus::ImplicitlyFinalized(_) => {
+                // slot is already decided, keep the stronger status
+                self.status.insert(slot, status);
+                FinalizationEvent::default()
+            }
             FinalizationStatus::Notarized(block_hash) => {
                 let mut event = FinalizationEvent::default();
                 self.status
